@@ -29,7 +29,7 @@ def gates(tier):
     return {'calls': 40000, 'returned_results': 25000, 'raised': 500, 'long_form_results': 1200, 'entries_checked': 8000,
             'partial_grades': 800, 'attempt_credit_calls': 1500, 'debug_on_results': 800, 'debug_off_results': 4000,
             'class:StringGrader': 300, 'class:FormulaGrader': 300, 'class:NumericalGrader': 300, 'class:MatrixGrader': 300,
-            'class:SingleListGrader': 300, 'class:IntervalGrader': 300, 'class:SumGrader': 200, 'class:ListGrader': 800, 'shared_debug_calls': 800}
+            'class:SingleListGrader': 300, 'class:IntervalGrader': 300, 'class:SumGrader': 200, 'class:ListGrader': 800, 'shared_debug_calls': 800, 'registered_defaults_calls': 400}
 
 
 def has_pin(desc):
@@ -212,8 +212,50 @@ def run_shared_debug(ctx):
         ctx.nontrivial(['shared_debug', kind, order])
 
 
+def run_registered_defaults(ctx):
+    """Registered class defaults (plugins) + one debug=True grader: later graders of the class stay without a debug log."""
+    import mitxgraders as M
+    rng = ctx.rng
+    plans = [
+        (M.StringGrader, {'wrong_msg': 'registered wrong_msg'}, lambda **k: M.StringGrader(answers='cat', **k), ['cat', 'dog']),
+        (M.FormulaGrader, {'tolerance': '1%'}, lambda **k: M.FormulaGrader(answers='x+1', variables=['x'], **k), ['x+1', '2*x']),
+        (M.NumericalGrader, {'tolerance': 0.5}, lambda **k: M.NumericalGrader(answers='3', **k), ['3', '9']),
+        (M.SingleListGrader, {'ordered': True}, lambda **k: M.SingleListGrader(answers=['a', 'b'], subgrader=M.StringGrader(), **k), ['a,b', 'b,a']),
+        (M.ListGrader, {'partial_credit': False}, lambda **k: M.ListGrader(answers=['a', 'b'], subgraders=M.StringGrader(), **k), [['a', 'b'], ['a', 'x']]),
+    ]
+    for i in range(ctx.n(160, 1600)):
+        cls, defaults, make, inputs = plans[i % len(plans)]
+        cls.register_defaults(dict(defaults))
+        try:
+            order = rng.sample(['debug', 'plain', 'plain', 'debug_attempt'], rng.randint(2, 4))
+            history = []
+            for who in order:
+                kw = {'debug': True} if who.startswith('debug') else {}
+                g = make(**kw)
+                for inp in inputs:
+                    out = lib.call(ctx, g, None, list(inp) if isinstance(inp, list) else inp)
+                    ctx.ev()
+                    ctx.count('calls')
+                    ctx.count('registered_defaults_calls')
+                    history.append(who)
+                    if not out.returned:
+                        ctx.count('raised')
+                        continue
+                    ctx.count('returned_results')
+                    check_result(ctx, {'cls': cls.__name__, 'desc': {'class': cls.__name__, 'registered_defaults': defaults}}, out.value,
+                                 inp if isinstance(inp, list) else [inp], bool(kw),
+                                 {'scenario': 'class defaults registered; graders built with and without debug=True in turn',
+                                  'registered_defaults': defaults, 'history': list(history), 'outcome': out.brief()})
+        finally:
+            cls.clear_registered_defaults()
+        if cls.default_values is not None:
+            ctx.violation('C01:registered_defaults_not_cleared', repr(cls.default_values), {'class': cls.__name__})
+        ctx.nontrivial(['registered', cls.__name__, order])
+
+
 def run(ctx):
     run_shared_debug(ctx)
+    run_registered_defaults(ctx)
     rng = ctx.rng
     F = GG.Factory(rng)
     scheds = schedules()
